@@ -219,6 +219,7 @@ func applySteps(c *core.Ctx, cases []map[string]any) int {
 }
 
 func C19(c *core.Ctx) {
+	c.ReproRounds = 25 // failures here depend on the goroutine schedule: a rejected run gets 25 chances to fail again
 	c.Set("rule", "scenario = random journal split over an include tree of 1-7 files (sub-directories, ../ paths) x command (check, balance, balance -v, print, transcode -v: 1-6 pipeline stages) x fault variant (none, syntax error / invalid account type / missing include in one file, unopened account (check stage fails), missing price (valuation stage fails)) x schedule-perturbation seed x GOMAXPROCS in {1,2,16}, on the -race binary with the verif hooks; non-trivial = the trace shows >= 2 stages active at once (interleaved StageDay events) or >= 2 files in flight at once")
 	c.Trusted("Go race detector as observer of unordered memory accesses", "verif hooks (Emit under a mutex with a global sequence number; StageDay emitted by the stage that owns the Day)", "TLC + Json module")
 	c.MC("Pipeline", c.TierCfg("MC_Pipeline"), 16, 30*time.Minute)
